@@ -32,11 +32,22 @@ def _string_names(tuning):
     return [(x[0] if isinstance(x, list) else x).to_shorthand() for x in tuning.tuning]
 
 
+def _forced_position(tuning, note):
+    """Return True when the note's 'string' and 'fret' attributes name a
+    position on this tuning that sounds the note."""
+    try:
+        n = tuning.get_Note(note.string, note.fret)
+    except RangeError:
+        # the attributes were set for another tuning
+        return False
+    return n is not None and int(n) == int(note)
+
+
 def begin_track(tuning, padding=2):
     """Helper function that builds the first few characters of every bar."""
     # find longest shorthand tuning base
     names = _string_names(tuning)
-    basesize = len(max(names)) + 3
+    basesize = max([len(x) for x in names]) + 3
 
     # Build result
     res = []
@@ -126,8 +137,7 @@ def from_Note(note, width=80, tuning=None):
 
     # Do an attribute check
     if hasattr(note, "string") and hasattr(note, "fret"):
-        n = tuning.get_Note(note.string, note.fret)
-        if n is not None and int(n) == int(note):
+        if _forced_position(tuning, note):
             (s, f) = (note.string, note.fret)
             min = 0
 
@@ -182,8 +192,7 @@ def from_NoteContainer(notes, width=80, tuning=None):
         attr = []
         for note in notes:
             if hasattr(note, "string") and hasattr(note, "fret"):
-                n = tuning.get_Note(note.string, note.fret)
-                if n is not None and int(n) == int(note):
+                if _forced_position(tuning, note):
                     f += (note.string, note.fret)
                     attr.append(int(note))
 
@@ -257,8 +266,7 @@ def from_Bar(bar, width=40, tuning=None, collapse=True):
             if notes is not None:
                 for note in notes:
                     if hasattr(note, "string") and hasattr(note, "fret"):
-                        n = tuning.get_Note(note.string, note.fret)
-                        if n is not None and int(n) == int(note):
+                        if _forced_position(tuning, note):
                             f.append((note.string, note.fret))
                             attr.append(int(note))
 
@@ -304,7 +312,7 @@ def from_Bar(bar, width=40, tuning=None, collapse=True):
             raise FingerError("No playable fingering found for: %s" % notes)
 
     # Padding at the end
-    l = len(result[i]) + 1
+    l = len(result[0]) + 1
     for i in range(len(result)):
         result[i] += (width - l) * "-" + "|"
     result.reverse()
@@ -379,7 +387,7 @@ def from_Composition(composition, width=80):
     barindex = 0
     bars = width // w
     lastlen = 0
-    maxlen = max([len(x) for x in composition.tracks])
+    maxlen = max([len(x) for x in composition.tracks] or [0])
 
     while barindex < maxlen:
         notfirst = False
@@ -450,7 +458,7 @@ def from_Suite(suite, maxwidth=80):
 def _get_qsize(tuning, width):
     """Return a reasonable quarter note size for 'tuning' and 'width'."""
     names = _string_names(tuning)
-    basesize = len(max(names)) + 3
+    basesize = max([len(x) for x in names]) + 3
     barsize = ((width - basesize) - 2) - 1
 
     # x * 4 + 0.5x - barsize = 0 4.5x = barsize x = barsize / 4.5
